@@ -24,12 +24,14 @@ def h_symqsp(c):
         init = numpy.array(init, dtype=float)
     p = SymmetricQSPProtocol(reduced_phases=init, parity=parity)
     states = [_proto_state(p)]
+    cont = c.get("hist_container", "array")
     for h in hist:
         if c.get("touch_between"):
             # use the object between updates, as a caller would
             p.gen_response_im(samples[:2])
             p.gen_jacobian()
-        p.update_reduced_phases(h)
+        # the new reduced phases as the container a caller may pass: ndarray, list or tuple of floats
+        p.update_reduced_phases(h if cont == "array" else [float(x) for x in h] if cont == "list" else tuple(float(x) for x in h))
         states.append(_proto_state(p))
     last = hist[-1] if hist else numpy.array(dec(c["initial"]), dtype=float)
     fresh = SymmetricQSPProtocol(reduced_phases=last, parity=parity)
@@ -47,6 +49,9 @@ def h_symqsp(c):
 def h_newton(c):
     from pyqsp.sym_qsp_opt import newton_Solver
     coef = numpy.array(dec(c["coef"]), dtype=float)
+    if c.get("dtype"):
+        # the same values held in a narrower / wider floating-point array (the values are exactly representable by construction)
+        coef = coef.astype(getattr(numpy, c["dtype"]))
     before = coef.copy()
     kw = {}
     if "crit" in c:
